@@ -343,6 +343,124 @@ func init() {
 		}
 		return Iface{T: results.At(0).Type(), V: first}
 	})
+	// name-based access to private identifiers of the package under test: a harness that needs one keeps compiling when a
+	// change removes or renames it (only the harnesses that use it become inconclusive, not every check)
+	harnessPkg := func(fr *frame) *ssa.Package {
+		if fr.caller != nil && fr.caller.fn.Pkg != nil {
+			return fr.caller.fn.Pkg
+		}
+		panic(unsupported{"name-based intrinsic called outside a package"})
+	}
+	regHarness("vPkgVar", func(m *Machine, fr *frame, a []Value) Value {
+		name := m.argStr(a[0], "vPkgVar")
+		g := harnessPkg(fr).Var(name)
+		if g == nil {
+			panic(unsupported{"vPkgVar: the package has no variable " + name})
+		}
+		v := *m.globalAddr(g)
+		t := deref(g.Type())
+		if _, isIface := t.Underlying().(*types.Interface); isIface {
+			return v
+		}
+		return Iface{T: t, V: v}
+	})
+	regHarness("vNewStruct", func(m *Machine, fr *frame, a []Value) Value {
+		tname := m.argStr(a[0], "vNewStruct")
+		fname := m.argStr(a[1], "vNewStruct")
+		tn := harnessPkg(fr).Type(tname)
+		if tn == nil {
+			panic(unsupported{"vNewStruct: the package has no type " + tname})
+		}
+		st, ok := tn.Type().Underlying().(*types.Struct)
+		if !ok {
+			panic(unsupported{"vNewStruct: " + tname + " is not a struct"})
+		}
+		cell := zero(tn.Type())
+		found := false
+		for i := 0; i < st.NumFields(); i++ {
+			if st.Field(i).Name() == fname {
+				val := a[2]
+				if _, isIface := st.Field(i).Type().Underlying().(*types.Interface); !isIface {
+					val = a[2].(Iface).V
+				}
+				cell.(Struct)[i] = val
+				found = true
+			}
+		}
+		if !found {
+			panic(unsupported{"vNewStruct: " + tname + " has no field " + fname})
+		}
+		p := new(Value)
+		*p = cell
+		return Iface{T: types.NewPointer(tn.Type()), V: p}
+	})
+	regHarness("vFieldOf", func(m *Machine, fr *frame, a []Value) Value {
+		fname := m.argStr(a[1], "vFieldOf")
+		x, ok := a[0].(Iface)
+		if !ok || x.T == nil {
+			return Iface{}
+		}
+		pt, ok := x.T.Underlying().(*types.Pointer)
+		if !ok {
+			panic(unsupported{"vFieldOf: not a pointer to a struct"})
+		}
+		st, ok := pt.Elem().Underlying().(*types.Struct)
+		if !ok {
+			panic(unsupported{"vFieldOf: not a pointer to a struct"})
+		}
+		p := x.V.(*Value)
+		if p == nil {
+			return Iface{}
+		}
+		for i := 0; i < st.NumFields(); i++ {
+			if st.Field(i).Name() == fname {
+				v := (*p).(Struct)[i]
+				if _, isIface := st.Field(i).Type().Underlying().(*types.Interface); isIface {
+					return v
+				}
+				return Iface{T: st.Field(i).Type(), V: v}
+			}
+		}
+		panic(unsupported{"vFieldOf: no field " + fname})
+	})
+	regHarness("vPkgFunc", func(m *Machine, fr *frame, a []Value) Value {
+		name := m.argStr(a[0], "vPkgFunc")
+		fn := harnessPkg(fr).Func(name)
+		if fn == nil {
+			panic(unsupported{"vPkgFunc: the package has no function " + name})
+		}
+		args := []Value{}
+		if a[1] != nil {
+			for i, x := range a[1].([]Value) {
+				v := x.(Iface).V
+				if i < len(fn.Params) {
+					if _, isIface := fn.Params[i].Type().Underlying().(*types.Interface); isIface {
+						v = x
+					}
+				}
+				args = append(args, v)
+			}
+		}
+		if len(args) != len(fn.Params) {
+			panic(unsupported{"vPkgFunc: " + name + " takes a different number of arguments"})
+		}
+		res := m.callSSA(fr, 0, fn, args, nil)
+		results := fn.Signature.Results()
+		if results.Len() == 0 {
+			return Iface{}
+		}
+		first := res
+		if results.Len() > 1 {
+			first = res.(Tuple)[0]
+		}
+		if _, isIface := results.At(0).Type().Underlying().(*types.Interface); isIface {
+			if first == nil {
+				return Iface{}
+			}
+			return first
+		}
+		return Iface{T: results.At(0).Type(), V: first}
+	})
 	regHarness("vWatchStore", func(m *Machine, fr *frame, a []Value) Value {
 		m.watches = append(m.watches, watch{field: a[0].(*Str).s, fn: a[1]})
 		return nil
